@@ -94,7 +94,7 @@ def run(pid, tier):
              pipe_to=[str(RDV), 'btpe-drive', '--out', str(bt)])
     require_ok(r6, 'MCBtpe')
     s6 = json.loads(r6.consumer_out.strip().splitlines()[-1])
-    if s6['events'] < 60:
+    if s6['events'] < 120:
         raise ToolError('btpe-drive: too few events: %s' % s6)
     r7 = tlc('TraceBtpe', 'TraceBtpe.cfg', pid, 'btpe_trace', trace_mode=True, env={'TRACE': bt}, timeout=1200, heap='4g')
     require_ok(r7, 'TraceBtpe')
@@ -174,7 +174,7 @@ def run(pid, tier):
         'Zipf and Zeta in f32 (exact law over the 2^24 x 2^24 lattice of proposal and acceptance word at the table\'s parameter points, k <= 24 and the tail, tolerance 2^-20 + 2^-14 p); '
         'Poisson with lambda < 12 (Knuth) and Binomial\'s Poisson limit: P(X = 0) = exp(-lambda) exactly (the one-word returns are a prefix of the word range; bisection with witnesses, f64) and P(X = 0), P(X = 1) over the 2^48 tickets in f32; the rest of those laws is not decided; '
         'BTPE is decided POINTWISE in its two main regions: at the anchors of spec/BtpeTable.tla (6 parameter points incl. a flipped one and three with the squeeze / Stirling path) the proposal of a region-2 first word is the table\'s y and '
-        'the accepting second words are a prefix of relative length (f(y)/f(m) - 1 + |x - x_m|/p1)/c with f the binomial pmf itself (2^-28), and the triangle map of region 1 is exact (2^-44); the exponential tails (regions 3, 4: about 5% of the proposals) and everything between anchors are NOT decided',
+        'the accepting second words are a prefix of relative length (f(y)/f(m) - 1 + |x - x_m|/p1)/c with f the binomial pmf itself (2^-28), the triangle map of region 1 is exact (2^-44), and in the exponential tails (regions 3, 4) the second words returning y after an anchor\'s first word form the interval [exp(lambda (y - x_l)), min(exp(lambda (y+1-x_l)), f(y)/f(m)/((u-p2) lambda))) resp. its mirror image (2^-28); everything between anchors is NOT decided',
         'H2PE is decided POINTWISE in its central region: at the anchors of spec/H2peTable.tla (8 parameter points incl. all reductions K <-> N-K, n <-> N-n and both evaluation paths) the value returned for a region-1 first word is the table\'s and '
         'the accepting second words are a prefix of relative length f(y)/f(m) with f the hypergeometric pmf itself (2^-22); the exponential tails and everything between anchors are NOT decided',
         'Poisson PD (lambda >= 12) is decided POINTWISE in its main path: at the anchors of spec/PdTable.tla (7 values of lambda, k within 3.2 sigma below l, f64 and f32) the uniform words that return k after a normal deviate with floor k are a suffix of relative length '
